@@ -6,7 +6,7 @@ from sa.claims import CLAIMS, NOT_APPLICABLE
 
 NOTE = ('Decides the named necessary structural conditions of the mechanism on the current source tree, not the behavioural '
         'property for all inputs. Trusted base: Python ast, the /verif/sa engine (own CFG, name resolution, by-name call '
-        'over-approximation), the triaged tables frozen in the rule modules; parso is a pinned dependency and is not analysed.')
+        'over-approximation, canonicalisation against sa/reference_locals.json and sa/reference_summaries.json), the triaged tables frozen in the rule modules; parso is a pinned dependency and is not analysed.')
 
 checks = []
 for pid in sorted(CLAIMS):
@@ -30,7 +30,11 @@ m = {
               'source_commits': [], 'add_only': True},
     'engines': [{'name': 'sa', 'path': 'sa/', 'serves_properties': sorted(CLAIMS),
                  'kind_free_text': 'repository-specific static analysis: ast program model, statement CFGs with copied finally blocks, '
-                                   'reachability-avoiding queries (MUST/GATE/PAIR), who-may-call over a by-name call graph, table agreement'}],
+                                   'reachability-avoiding queries (MUST/GATE/PAIR) with correlated tests and flag variables, who-may-call over a by-name call graph, '
+                                   'table agreement, symbolic per-path summaries of small loop-free functions compared with a committed reference, '
+                                   'and a canonicalisation pass (renamed locals/private functions, extracted single-use helpers, new temporaries and '
+                                   'module constants are normalised against a committed reference of the pinned tree) so that rules are not '
+                                   'sensitive to behaviour-preserving refactorings'}],
     'checks': checks,
     'not_applicable': [{'property_id': k, 'reason': v} for k, v in sorted(NOT_APPLICABLE.items())],
     'notes': 'Static analysis only: no check imports or runs jedi. Exit 0 ok / 1 VIOLATION / 2 ANALYSIS-ERROR (anchor vanished or checker bug). '
